@@ -22,6 +22,7 @@ import (
 	"runtime/debug"
 	"sort"
 	"strings"
+	"sync/atomic"
 	"time"
 
 	"github.com/moorara/algo/grammar"
@@ -347,35 +348,100 @@ func build(g *gspec, m string) built {
 	return res
 }
 
+func verdictOf(err error) string {
+	if err == nil {
+		return "A"
+	}
+	var pe *parser.ParseError
+	if errors.As(err, &pe) {
+		return fmt.Sprintf("R@%d", pe.Pos.Offset)
+	}
+	return "R@?"
+}
+
+// parseOne drives every entry point of the LR parser in every callback configuration:
+// Parse(tokenF,prodF) (primary: production sequence), Parse(nil,nil), Parse(tokenF,nil), Parse(nil,prodF),
+// ParseAndBuildAST (AST) and ParseAndEvaluate (trivial evaluator).  The result is the primary verdict with the
+// production list and the AST; every configuration whose verdict / productions / tokens differ from the primary
+// one is appended after '~' (the model side reports it: the driver's verdict cannot depend on the callbacks).
 func parseOne(t *lr.ParsingTable, w string) string {
-	return guard(10*time.Second, func() string {
-		var prods []string
-		steps := 0
-		p := &lr.Parser{L: &mockLexer{toks: w}, T: t}
-		err := p.Parse(
-			func(*lexer.Token) error { return nil },
-			func(pr *grammar.Production) error {
+	var stage atomic.Value
+	stage.Store("Parse(tokenF,prodF)")
+	res := guard(3*time.Second, func() string {
+		newP := func() *lr.Parser { return &lr.Parser{L: &mockLexer{toks: w}, T: t} }
+		collect := func(dst *[]string) func(*grammar.Production) error {
+			steps := 0
+			return func(pr *grammar.Production) error {
 				steps++
 				if steps > 100000 {
 					panic("more than 100000 reductions")
 				}
-				prods = append(prods, prodStr(pr))
+				*dst = append(*dst, prodStr(pr))
 				return nil
-			})
-		if err != nil {
-			var pe *parser.ParseError
-			if errors.As(err, &pe) {
-				return fmt.Sprintf("R@%d", pe.Pos.Offset)
 			}
-			return "R@?"
 		}
-		p2 := &lr.Parser{L: &mockLexer{toks: w}, T: t}
-		root, err2 := p2.ParseAndBuildAST()
-		if err2 != nil {
-			return "A[" + strings.Join(prods, ";") + "]ERR"
+		var prods, toks []string
+		pv := verdictOf(newP().Parse(
+			func(tk *lexer.Token) error { toks = append(toks, symLetter(tk.Terminal)); return nil },
+			collect(&prods)))
+		var dis []string
+		differ := func(name, v string) {
+			if v != pv {
+				dis = append(dis, name+"="+v)
+			}
 		}
-		return "A[" + strings.Join(prods, ";") + "]" + astStr(root)
+		// tokens handed to the token callback are the consumed prefix of the input
+		if tj := strings.Join(toks, ""); !strings.HasPrefix(w, tj) || (pv == "A" && tj != w) {
+			dis = append(dis, "tokens="+tj)
+		}
+		stage.Store("Parse(nil,nil)")
+		differ("Parse(nil,nil)", verdictOf(newP().Parse(nil, nil)))
+		stage.Store("Parse(tokenF,nil)")
+		var toks2 []string
+		differ("Parse(tokenF,nil)", verdictOf(newP().Parse(
+			func(tk *lexer.Token) error { toks2 = append(toks2, symLetter(tk.Terminal)); return nil }, nil)))
+		if strings.Join(toks2, "") != strings.Join(toks, "") {
+			dis = append(dis, "Parse(tokenF,nil).tokens="+strings.Join(toks2, ""))
+		}
+		stage.Store("Parse(nil,prodF)")
+		var prods2 []string
+		differ("Parse(nil,prodF)", verdictOf(newP().Parse(nil, collect(&prods2))))
+		if strings.Join(prods2, ";") != strings.Join(prods, ";") {
+			dis = append(dis, "Parse(nil,prodF).prods="+strings.Join(prods2, ";"))
+		}
+		stage.Store("ParseAndBuildAST")
+		root, errA := newP().ParseAndBuildAST()
+		differ("ParseAndBuildAST", verdictOf(errA))
+		stage.Store("ParseAndEvaluate")
+		evals := 0
+		_, errE := newP().ParseAndEvaluate(func(pr *grammar.Production, rhs []*lr.Value) (any, error) {
+			evals++
+			if evals > 100000 {
+				panic("more than 100000 evaluations")
+			}
+			return len(rhs), nil
+		})
+		differ("ParseAndEvaluate", verdictOf(errE))
+		if pv == "A" && evals != len(prods) {
+			dis = append(dis, fmt.Sprintf("ParseAndEvaluate.calls=%d", evals))
+		}
+		out := pv
+		if pv == "A" {
+			ast := "ERR"
+			if errA == nil {
+				ast = astStr(root)
+			}
+			out = "A[" + strings.Join(prods, ";") + "]" + ast
+		}
+		if len(dis) > 0 {
+			out += "~" + strings.Join(dis, ",")
+		}
+		return out
 	})
+	if res == "HANG" {
+		return "HANG:" + stage.Load().(string)
+	}
+	return res
 }
 
 type session struct {
@@ -635,6 +701,7 @@ func main() {
 		genRandom(w, rng.FromEnv(11), thorough)
 	case "prec":
 		genPrec(w, rng.FromEnv(1111), thorough)
+		genPrecFamilies(w, rng.FromEnv(11110), thorough)
 	case "boundary":
 		genBoundary(w, rng.FromEnv(11011), thorough)
 	}
